@@ -9,6 +9,7 @@ from vlib.values_for import values_for
 from props.c17_equality import alpha
 
 from statham.schema.constants import NotPassed
+from statham.schema.elements import Array
 from statham.schema.property import Property
 
 PID = "C15"
@@ -146,6 +147,32 @@ def compare(child, flat, values, classes_chain, label):
                     if not isinstance(a[1], anc):
                         fails.append({"sub": "isinstance", "kind": "instance-not-of-ancestor",
                                       "detail": anc.__name__, "value": value})
+    # an instance of an ancestor handed to the subclass / to the flat class: neither is "a Child", both must say so
+    # the same way (which exception escapes is part of how a class validates)
+    def raw(cls_, value):
+        try:
+            with __import__("warnings").catch_warnings():
+                __import__("warnings").simplefilter("ignore")
+                cls_(value)
+            return "ok"
+        except Exception as exc:  # noqa: BLE001
+            return type(exc).__name__
+
+    for anc in classes_chain:
+        if anc is child:
+            continue  # (its own instances are passed through by the subclass and refused by the flat class)
+        for value in [v for v in values if isinstance(v, dict)][:3]:
+            made = observe.verdict(anc, value)
+            if made[0] != "ok" or isinstance(made[1], NotPassed):
+                continue
+            for wrap in (lambda c: c, lambda c: Array(c)):
+                arg = made[1] if wrap(child) is child else [made[1]]
+                a, b = raw(wrap(child), arg), raw(wrap(flat), arg)
+                if a != b:
+                    fails.append({"sub": "instance-input", "kind": f"ancestor-instance:child-{a}-flat-{b}", "value": value,
+                                  "ancestor": anc.__name__, "when": label})
+                    break
+            break
     ja, jb = observe.ser_json(child), observe.ser_json(flat)
     if ja[0] != jb[0]:
         fails.append({"sub": "json", "kind": "serialisation-outcome-differs", "detail": [ja[0], jb[0]], "when": label})
